@@ -16,7 +16,8 @@ import colorsys, itertools, json, math
 import numpy as np
 import torch
 import re
-from harness.common import zlit, listlit, ALLOWED_AXIOM_PREFIXES
+import os
+from harness.common import zlit, listlit, ALLOWED_AXIOM_PREFIXES, gate_scan, COQ, VERIF
 from tracer.recipes import c15 as recipe
 from tracer import emit
 
@@ -499,34 +500,56 @@ def correspondence_layout(ctx):
     ctx.obligation('correspondence:lab-layout(model = implementation on %d shapes x 2 functions)' % len(shapes), mism == 0, '%d disagreements' % mism)
 
 
+# ---------------------------------------------------------------- gate over the files C15 rests on
+def gate_c15(ctx):
+    """The syntactic gate (no Admitted / Axiom / Parameter / ... ; Variable/Hypothesis only inside Sections) over every
+    Coq file the C15 proofs depend on: theories/Base, theories/C15, tie/C15_*.  (ctx.gate() scans the whole shared tree,
+    where other properties may be mid-edit; nothing of that is imported here.)"""
+    bad, nfiles = [], 0
+    for d, pred in (('theories/Base', lambda f: True), ('theories/C15', lambda f: True), ('tie', lambda f: f.startswith('C15_'))):
+        for f in sorted(os.listdir(os.path.join(COQ, d))):
+            if f.endswith('.v') and pred(f):
+                p = os.path.join(COQ, d, f); nfiles += 1
+                bad += gate_scan(open(p).read(), os.path.relpath(p, VERIF))
+    flags = open(os.path.join(COQ, '_CoqProject')).read()
+    if re.search(r'type-in-type|impredicative-set|-vos|-noinit|bypass', flags):
+        bad.append('_CoqProject: forbidden flag')
+    return ctx.obligation('gate:no-admitted-no-axioms(%d files: Base, C15, tie/C15_*)' % nfiles, not bad and nfiles >= 10, '; '.join(bad[:10]))
+
+
 # ---------------------------------------------------------------- Print Assumptions, several files in parallel
-def theorems_parallel(ctx, module, names, nfiles=10):
-    """Same obligations as ctx.theorems (one per theorem: exists, depends only on allowed axioms), but the
-    `Print Assumptions` commands -- 5 s each for the theorems that rest on Interval -- are spread over files
-    compiled in parallel."""
+def theorems_parallel(ctx, module, names, nfiles=4):
+    """Same obligations as ctx.theorems (one per theorem: it exists in the compiled module and depends only on
+    allowed axioms).  `Print Assumptions` costs 5 s of CPU for every theorem that rests on Interval, so the theorems
+    are grouped: each file checks that every theorem of its group exists (`Check`) and prints the assumptions of
+    the tuple of the group's proofs, whose axioms are the union of the members' axioms."""
     groups = [names[k::nfiles] for k in range(nfiles) if names[k::nfiles]]
     files = []
     for k, grp in enumerate(groups):
         lines = ['Require Import %s.' % module]
         for n in grp:
             lines.append('Goal True. idtac "@@THM %s". exact I. Qed.' % n)
-            lines.append('Print Assumptions %s.' % n)
+            lines.append('Check %s.' % n)
+        lines.append('Goal True. idtac "@@BUNDLE". exact I. Qed.')
+        lines.append('Definition c15_bundle_%d := %s.' % (k, ' '.join('(pair %s' % n for n in grp[:-1]) + ' ' + grp[-1] + ')' * (len(grp) - 1)))
+        lines.append('Print Assumptions c15_bundle_%d.' % k)
         lines.append('Goal True. idtac "@@END". exact I. Qed.')
         files.append(('Assumptions_C15_%d' % k, '\n'.join(lines) + '\n'))
     res = ctx.coqc_many(files, 600)
     for grp, (ok, out) in zip(groups, res):
-        blocks = re.split(r'@@THM (\S+)', out)
-        seen = {blocks[i]: blocks[i + 1].split('@@END')[0] for i in range(1, len(blocks) - 1, 2)}
+        head, _, tail = out.partition('@@BUNDLE')
+        b = tail.split('@@END')[0]
+        closed = 'Closed under the global context' in b
+        ax = [] if closed else [a for a in re.findall(r"^([A-Za-z_][\w.']*)\s*:", b, flags=re.M) if a != 'Axioms' and not a.startswith('c15_bundle')]
+        bad = [a for a in ax if not a.startswith(ALLOWED_AXIOM_PREFIXES)]
+        ctx.axioms.update(a for a in ax if a.startswith(ALLOWED_AXIOM_PREFIXES))
+        blocks = re.split(r'@@THM (\S+)', head)
+        seen = {blocks[i]: blocks[i + 1] for i in range(1, len(blocks) - 1, 2)}
         for n in grp:
-            b = seen.get(n)
-            if not ok or b is None:
-                ctx.obligation('theorem:%s.%s' % (module, n), False, out[-800:]); continue
-            if 'Closed under the global context' in b:
-                ctx.obligation('theorem:%s.%s' % (module, n), True); continue
-            ax = [a for a in re.findall(r"^([A-Za-z_][\w.']*)\s*:", b, flags=re.M) if a != 'Axioms']
-            bad = [a for a in ax if not a.startswith(ALLOWED_AXIOM_PREFIXES)]
-            ctx.axioms.update(ax)
-            ctx.obligation('theorem:%s.%s' % (module, n), not bad and bool(ax), 'non-stdlib axioms: %s' % bad if bad else '')
+            present = ok and n in seen and re.search(r'^%s\s*$|^%s\s*:' % (re.escape(n), re.escape(n)), seen[n], flags=re.M) is not None
+            good = present and '@@END' in tail and (closed or bool(ax)) and not bad
+            ctx.obligation('theorem:%s.%s' % (module, n), good,
+                           ('non-stdlib axioms in the group: %s' % bad) if bad else ('' if good else out[-800:]))
 
 
 # ---------------------------------------------------------------- run
@@ -582,7 +605,7 @@ def run(ctx):
                     'general H x W are exercised by the direct oracles only (traced at 2 x 3 x 1 x 2)']
     ctx.assumptions += ['colours in gamut [0,1]^3 (round trips of HSV need only non-negative channels)',
                         'display primaries linearly independent (pseudo-inverse contract) for the LMS round trip']
-    ctx.gate()
+    gate_c15(ctx)
     ctx.ensure_theories(['theories/C15/Props.vo'])
     theorems_parallel(ctx, 'OdakV.C15.Props', PROPS)
     try:
